@@ -146,6 +146,9 @@ def real_tokens(repo, block):
                 break
         if a is None:
             raise LostAnchor("item %r: fragment start %r not found" % (block["key"], frag["start"]))
+        if frag.get("to_end"):
+            # up to (not including) the closing brace of the function body: the tail expression is part of the fragment
+            return t[a:len(t) - 1], fired, it, line
         if "end_before" in frag:
             eb = frag["end_before"].split()
             e = None
